@@ -53,6 +53,11 @@ def strategy(date, ctx):
         zero_other = draw(st.sampled_from([True, True, True, False]))
         wealth = draw(st.sampled_from([0.0, 0.0, 2000.0, 20000.0, 200000.0]))
         rent = draw(st.sampled_from([0.0, 350.0, 600.0, 950.0]))
+        # one sweep in four runs over the *wealth* of the household (fixed wage): the wealth checks
+        # of ALG II / Kinderzuschlag / Wohngeld have their own break-even points
+        if draw(st.integers(0, 3)) == 0:
+            wage = draw(st.sampled_from([0.0, 900.0, 1250.0, 1600.0, 2200.0, 3000.0]))
+            return _Case((pop, who, draw(st.sampled_from([20000.0, 45000.0, 90000.0])), npts, zero_other, ("sweep", wage), rent))
         return _Case((pop, who, top, npts, zero_other, wealth, rent))
 
     return s()
@@ -64,7 +69,8 @@ def build_sweep(df, who, top, npts, zero_other, wealth, rent):
         for c in ["eink_selbst_m", "kapitaleink_brutto_m", "eink_vermietung_m", "sonstig_eink_m", "priv_rente_m"]:
             base[c] = 0.0
         base["bruttolohn_m"] = 0.0
-    base["vermögen_bedürft"] = wealth
+    wealth_sweep = isinstance(wealth, (tuple, list))
+    base["vermögen_bedürft"] = 0.0 if wealth_sweep else wealth
     base["bruttokaltmiete_m_hh"] = rent
     n = len(base)
     pid = {int(p): i for i, p in enumerate(base["p_id"].tolist())}
@@ -77,9 +83,12 @@ def build_sweep(df, who, top, npts, zero_other, wealth, rent):
         d["hh_id"] = [k * 10 + hhs[int(h)] for h in base["hh_id"]]
         for c in popgen.POINTER_COLS:
             d[c] = [k * 100 + pid[int(v)] if v >= 0 else int(v) for v in base[c]]
-        d.loc[d.index[who], "bruttolohn_m"] = float(w)
-        d.loc[d.index[who], "bruttolohn_vorj_m"] = float(w)
-        d.loc[d.index[who], "arbeitsstunden_w"] = 38.0 if w > 0 else 0.0
+        wage = float(wealth[1]) if wealth_sweep else float(w)
+        d.loc[d.index[who], "bruttolohn_m"] = wage
+        d.loc[d.index[who], "bruttolohn_vorj_m"] = wage
+        d.loc[d.index[who], "arbeitsstunden_w"] = 38.0 if wage > 0 else 0.0
+        if wealth_sweep:
+            d.loc[d.index[who], "vermögen_bedürft"] = float(w)
         parts.append(d)
     out = pd.concat(parts, ignore_index=True)
     for c in ["p_id", "hh_id", *popgen.POINTER_COLS]:
@@ -150,6 +159,7 @@ def oracle(case, date, sh, ctx):
     fails, res = check(sweep, date)
     seq = regimes(res, n, npts)
     sh.classes["regimes:" + ">".join(seq)] += 1
+    sh.classes["sweep-over-wealth" if isinstance(wealth, (tuple, list)) else "sweep-over-wage"] += 1
     if len(seq) >= 2:
         sh.nontrivial.add(f"{ctx['iso']}|{'>'.join(seq)}|{pop.archetypes[0]}")
     nbg = int(pd.Series(res["bg_id"].to_numpy()[:n]).nunique())
